@@ -750,7 +750,8 @@ NS_MODES = ("reread", "own", "unrelated", "empty")
 def sub_prefix(ctx, case):
     """case: {"text": prefix, "schema", "kwargs", "matrix_type", "full": bool}"""
     text = case["text"]
-    run_text(ctx, text, case["schema"], case["kwargs"], case.get("matrix_type"), case.get("ns"))
+    run_text(ctx, text, case["schema"], case["kwargs"], case.get("matrix_type"), case.get("ns"), case.get("opts"),
+             case.get("src"))
     if text and not case.get("full"):
         ctx.nontrivial(canon(case["schema"], case["kwargs"], text))
 
@@ -761,7 +762,8 @@ def sub_edit(ctx, case):
     text = docs.apply_edits(d["text"], case["edits"], d["schema"])
     for e in case["edits"]:
         ctx.cls("edit_op:%s" % e["op"])
-    run_text(ctx, text, d["schema"], d["kwargs"], d.get("matrix_type"), ns_for(d, case.get("ns_mode")))
+    run_text(ctx, text, d["schema"], d["kwargs"], d.get("matrix_type"), ns_for(d, case.get("ns_mode")),
+             case.get("opts"), case.get("src"))
     if text and text != d["text"]:
         ctx.nontrivial(canon(d["schema"], d["kwargs"], text))
         ctx.sample("edit:%s" % d["schema"], {"text": text})
@@ -769,7 +771,8 @@ def sub_edit(ctx, case):
 
 def sub_soup(ctx, case):
     """case: {"text", "schema", "kwargs", "matrix_type"}"""
-    run_text(ctx, case["text"], case["schema"], case["kwargs"], case.get("matrix_type"), case.get("ns"))
+    run_text(ctx, case["text"], case["schema"], case["kwargs"], case.get("matrix_type"), case.get("ns"),
+             case.get("opts"), case.get("src"))
     if case["text"]:
         ctx.nontrivial(canon(case["schema"], case["kwargs"], case["text"]))
         ctx.sample("soup:%s" % case["schema"], {"text": case["text"]})
@@ -819,7 +822,8 @@ def sub_dup(ctx, case):
     d = case["doc"]
     text = dup_text(case)
     ctx.cls("dup:%s:%s" % (d["schema"], case["variant"]))
-    run_text(ctx, text, d["schema"], d["kwargs"], d.get("matrix_type"), ns_for(d, case.get("ns_mode")))
+    run_text(ctx, text, d["schema"], d["kwargs"], d.get("matrix_type"), ns_for(d, case.get("ns_mode")),
+             case.get("opts"), case.get("stream"))
     if text != d["text"]:
         ctx.nontrivial(canon(d["schema"], d["kwargs"], text))
         ctx.sample("dup:%s" % d["schema"], {"text": text})
@@ -972,7 +976,8 @@ def sub_row(ctx, case):
         ctx.cls("page:%s:lines%+d:%s:ns=%s" % ("interleaved" if kwargs.get("interleaved") else "sequential",
                                              (case.get("page") or {}).get("lines", 0),
                                              (case.get("page") or {}).get("width", "full"), case.get("ns_mode")))
-    run_text(ctx, text, d["schema"], kwargs, d.get("matrix_type"), ns_for(d, case.get("ns_mode")))
+    run_text(ctx, text, d["schema"], kwargs, d.get("matrix_type"), ns_for(d, case.get("ns_mode")), None,
+             case.get("src"))
     if text != d["text"]:
         ctx.nontrivial(canon(d["schema"], d["kwargs"], text))
         ctx.sample("row:%s" % case["op"], {"text": text})
@@ -1050,6 +1055,11 @@ def run_prefixes(ctx, documents, name="prefix"):
                 continue
             case = dict(slim(doc), text=text[:cut], full=(cut == len(text)))
             case.pop("labels", None)
+            # source kind and (Newick / NEXUS) reader options cycle with the cut point; every second cut keeps the
+            # default options
+            case["src"] = SRC_KINDS[cut % len(SRC_KINDS)]
+            if doc["schema"] in ("newick", "nexus") and cut % 2:
+                case["opts"] = TREE_OPTIONS[(cut // 2) % len(TREE_OPTIONS)]
             if doc["schema"] != "newick" or cut % 2 == 0:
                 # every route again, reading into a pre-populated namespace (mode cycles with the cut point)
                 case["ns"] = ns_for(sdoc, NS_MODES[cut % len(NS_MODES)])
@@ -1071,6 +1081,8 @@ def run_prefixes(ctx, documents, name="prefix"):
         len(documents)
 
 
+OPTS_ST = st.sampled_from([None, None, None] + TREE_OPTIONS)
+SRC_ST = st.sampled_from(SRC_KINDS)
 NS_SOUP = st.sampled_from([None, None, {"mode": "labels", "labels": UNRELATED_LABELS},
                            {"mode": "labels", "labels": ["a", "b", "c", "A", "B", "t1", "1", "2"]}])
 
@@ -1086,17 +1098,17 @@ def soup_cases():
         else:
             kw = st.just({})
         return st.fixed_dictionaries({"text": docs.soups(schema), "schema": st.just(schema), "kwargs": kw,
-                                      "ns": NS_SOUP}).map(
+                                      "ns": NS_SOUP, "opts": OPTS_ST, "src": SRC_ST}).map(
             lambda c: dict(c, matrix_type=c["kwargs"].get("data_type", "dna" if c["schema"] == "nexus" else None)))
     stmt = st.fixed_dictionaries({"text": docs.nexus_statement_soups(), "schema": st.just("nexus"),
                                   "kwargs": st.just({}), "matrix_type": st.sampled_from(["dna", "standard"]),
-                                  "ns": NS_SOUP})
+                                  "ns": NS_SOUP, "opts": OPTS_ST, "src": SRC_ST})
     plain = st.fixed_dictionaries({"text": docs.plain_newick_soups(), "schema": st.just("newick"),
                                    "kwargs": st.just({}), "matrix_type": st.none()})
     plain2 = st.fixed_dictionaries({"text": docs.plain_newick_mutants(), "schema": st.just("newick"),
                                     "kwargs": st.just({}), "matrix_type": st.none()})
     link = st.fixed_dictionaries({"text": docs.nexus_link_soups(), "schema": st.just("nexus"),
-                                  "kwargs": st.just({}), "matrix_type": st.just("dna"), "ns": NS_SOUP})
+                                  "kwargs": st.just({}), "matrix_type": st.just("dna"), "ns": NS_SOUP, "opts": OPTS_ST, "src": SRC_ST})
     return st.one_of(one("newick"), plain, plain2, plain2, one("nexus"), one("nexus"), stmt, stmt, stmt, stmt, stmt,
                      link, link, link, link, one("phylip"), one("fasta"))
 
@@ -1230,15 +1242,17 @@ def run(ctx):
     run_prefixes(ctx, mine + generated)
 
     # (2) 1-2 edits of valid documents
-    edit_cases = st.fixed_dictionaries({"doc": valid_docs.map(slim), "edits": docs.edits(2),
-                                        "ns_mode": st.sampled_from((None,) + NS_MODES)})
+    OPTS, SRC = OPTS_ST, SRC_ST
+    edit_cases = st.fixed_dictionaries({"edits": docs.edits(2), "ns_mode": st.sampled_from((None,) + NS_MODES),
+                                        "opts": OPTS, "src": SRC, "doc": valid_docs.map(slim)})
     runner.run_given(ctx, "edit", edit_cases, sub_edit, per(tot["edit"]))
 
     # (2b) one taxon named twice (same label, case variant, TRANSLATE token / number next to the label)
     tree_docs = docs.documents(max_len=max_len, schemas=("newick", "nexus"), large=large).map(slim)
-    dup_cases = st.fixed_dictionaries({"doc": tree_docs, "src": st.integers(0, 200), "dst": st.integers(0, 200),
+    dup_cases = st.fixed_dictionaries({"src": st.integers(0, 200), "dst": st.integers(0, 200),
                                        "variant": st.sampled_from(DUP_VARIANTS),
-                                       "ns_mode": st.sampled_from((None, None) + NS_MODES)})
+                                       "ns_mode": st.sampled_from((None, None) + NS_MODES), "opts": OPTS,
+                                       "stream": SRC, "doc": tree_docs})
     runner.run_given(ctx, "dup", dup_cases, sub_dup, per(tot["dup"]))
 
     # (2c) matrix rows that contradict the declaration: extra / misspelt / renamed row label (NEXUS); a data line one
